@@ -2,7 +2,8 @@
    Statements only; for every event list of the gate-level model (every API call is one critical section of the
    container's Broadcast, so concurrent calls are interleavings of these events; the lock discipline that justifies
    this granularity is C13's obligation, and the pinned code's violation of it was defect D5). *)
-From Util Require Import Common.Base Common.ListLemmas Routine.Model Routine.Proofs Routine.ProofsC05.
+From Util Require Import Common.Base Common.ListLemmas Routine.Model Routine.Proofs Routine.ProofsC05 Routine.Spec Routine.ProofsMon.
+Close Scope N_scope.
 
 (* in every reachable state: an instance whose context is still live is THE current instance of the current routine
    record, the container has a context, the instance derives from exactly that context, and (state variant) it was
@@ -47,3 +48,12 @@ Example c05_example_empty_state :
   let s := run repaired (init true 1 1 None) [ESetCtx 1 false; ESetSR 1; ESetState 5; EProceed 0 true; ESetState 0] in
   cnt live (insts s) = 0 /\ routine s = None.
 Proof. vm_compute. repeat split; reflexivity. Qed.
+
+(* Monitors and model, for EVERY event list: whenever the schedule-level step function of Routine/Spec.v accepts the
+   events, the monitors (clauses 5/1: a live instance seen inside the user function is the newest one, 5/2: it exists
+   only if context, routine and state are set, 5/3: it carries the current root context and state; together with those
+   of C04 and C14) running on the model's own observations report no false clause. *)
+Theorem c05_model_satisfies_monitors : forall cfg evs, cfg_ok cfg = true ->
+  monitor mon 0 (minit cfg) [] evs (run_obs step_opt (hinit cfg) evs) = [].
+Proof. exact model_satisfies_monitors. Qed.
+Print Assumptions c05_model_satisfies_monitors.
